@@ -65,7 +65,9 @@ func cmdConc(args []string) {
 				bs := strings.Split(*backends, ",")
 				be = bs[i%len(bs)]
 			}
-			if *gated {
+			if *gated && i%3 == 2 {
+				results[i].lines, results[i].stats = runBigBatch(tseed, be)
+			} else if *gated {
 				results[i].lines, results[i].stats = runGated(tseed, be)
 			} else {
 				results[i].lines, results[i].stats = runConc(tseed, be, *maxG, *opsPer)
@@ -190,6 +192,24 @@ func runConc(seed int64, be string, maxG, opsPer int) ([][]byte, map[string]int)
 	for gi := 0; gi < G; gi++ {
 		for k := 0; k < opsPer; k++ {
 			progs[gi] = append(progs[gi], g.concOp(c, gi))
+		}
+	}
+	// catalog races: two goroutines create the same new collection and fill it
+	if g.chance(0.3) && G >= 2 {
+		name := "second"
+		progs[0][0] = E{"op": "CreateCollection", "c": name}
+		progs[1][0] = E{"op": "CreateCollection", "c": name}
+		if len(progs[1]) > 1 {
+			progs[1][1] = E{"op": "Insert", "c": name, "docs": []interface{}{g.doc(AStr(g.ids[0]))}}
+		}
+		if len(progs[0]) > 1 {
+			progs[0][1] = E{"op": "CreateIndex", "c": name, "f": B("x")}
+		}
+		if G >= 3 {
+			progs[2][0] = E{"op": "ListCollections"}
+			if len(progs[2]) > 1 && g.chance(0.5) {
+				progs[2][1] = E{"op": "DropCollection", "c": name}
+			}
 		}
 	}
 	// predicate-based writers whose predicates read what the other one writes (write-skew shape):
@@ -319,4 +339,69 @@ func runGated(seed int64, be string) ([][]byte, map[string]int) {
 	return concLines(evs, audit, seed, be, 3)
 }
 
-func isConflict(err error) bool { return errors.Is(err, badgerdb.ErrConflict) }
+func isConflict(err error) bool   { return errors.Is(err, badgerdb.ErrConflict) }
+func isStoreLimit(err error) bool { return errors.Is(err, badgerdb.ErrTxnTooBig) }
+
+// runBigBatch: one insert batch of about 11 MB (beyond badger's transaction size limit) while a
+// reader keeps listing the collection: the reader sees the batch entirely or not at all, and a batch
+// the store refuses leaves nothing behind.
+func runBigBatch(seed int64, be string) ([][]byte, map[string]int) {
+	p := &Profile{Name: "conc", NumTable: "general", TimeTable: "general", Colls: 1, MaxDocs: 6, Indexes: true, W: weights(nil), NoGenIds: true}
+	g := NewGen(seed, p)
+	c := g.colls[0]
+	dir, err := os.MkdirTemp(scratchBase(), "verif-big-")
+	if err != nil {
+		panic(err)
+	}
+	defer os.RemoveAll(dir)
+	b, err := NewBackend(be, dir, nil)
+	if err != nil {
+		panic(err)
+	}
+	defer b.Destroy()
+	x := &Exec{U: g.U, FileDir: dir, Backends: []*Backend{b}}
+	var ticket int64
+	var mu sync.Mutex
+	var evs []concEvent
+	do := func(gi int, e E) {
+		t1 := atomic.AddInt64(&ticket, 1)
+		res := x.Run(b, e, nil)
+		t2 := atomic.AddInt64(&ticket, 1)
+		mu.Lock()
+		evs = append(evs, concEvent{g: gi, e: e, call: t1, ret: t2, res: res})
+		mu.Unlock()
+	}
+	do(0, E{"op": "CreateCollection", "c": c})
+	do(0, E{"op": "Insert", "c": c, "docs": []interface{}{AObj("_id", AStr(bulkId(100000)), "x", g.smallNum())}})
+	n := 165 + g.r.Intn(15)
+	docs := make([]interface{}, 0)
+	for i := 0; i < n; i++ {
+		docs = append(docs, AObj("_id", AStr(bulkId(i)), "p", APad(65536)))
+	}
+	if seed%2 == 0 { // an offending document at the end
+		docs = append(docs, AObj("_id", AStr(bulkId(0))))
+	}
+	var wg sync.WaitGroup
+	stop := make(chan struct{})
+	wg.Add(2)
+	go func() {
+		defer wg.Done()
+		do(1, E{"op": "Insert", "c": c, "docs": docs})
+		close(stop)
+	}()
+	go func() {
+		defer wg.Done()
+		for i := 0; i < 40; i++ {
+			select {
+			case <-stop:
+				return
+			default:
+			}
+			do(2, E{"op": "Count", "c": c, "q": []interface{}{[]interface{}{"where", []interface{}{"un", "exists", B("_id"), []interface{}{"none"}}}}})
+		}
+	}()
+	wg.Wait()
+	do(0, E{"op": "Count", "c": c, "q": []interface{}{}})
+	audit := x.Audit(b)
+	return concLines(evs, audit, seed, be, 2)
+}
